@@ -42,7 +42,7 @@ def vocabulary():
          'name': 'F'},
         {'op': 'dilute', 'obj': 'A', 'solute': 'nacl', 'conc': '0.15 M', 'solvent': 'dmso'},
         # a dilution that renames the container inside the recipe
-        {'op': 'dilute', 'obj': 'A', 'solute': 'nacl', 'conc': '0.12 M', 'solvent': 'water', 'new_name': 'A-diluted'},
+        {'op': 'dilute', 'obj': 'A', 'solute': 'nacl', 'conc': '0.12 M', 'solvent': 'water', 'new_name': 'A2'},
     ]
     return v
 
